@@ -64,10 +64,11 @@ type monitor struct {
 	m     *Mesh
 	pairs []*pairState
 
-	nodeIdx  map[string]int // node name -> index
-	rawClaim map[string]int // raw peer name -> node index whose identity it claims
-	faulted  map[int]bool   // link ids stalled/reset by the harness
-	stalled  map[int]bool   // link ids ever stalled
+	nodeIdx  map[string]int            // node name -> index
+	rawClaim map[string]int            // raw peer name -> node index whose identity it claims
+	faulted  map[int]bool              // link ids stalled/reset by the harness
+	admin    map[*peer.Connection]bool // connections the agent itself took out of its registry (DisconnectAll)
+	stalled  map[int]bool              // link ids ever stalled
 
 	lastSend map[[2]int]int
 	retired  map[[2]int]map[int]bool
@@ -92,7 +93,7 @@ func newMonitor(w *world) *monitor {
 	mon := &monitor{w: w, m: w.m,
 		nodeIdx: map[string]int{}, rawClaim: map[string]int{}, faulted: map[int]bool{}, stalled: map[int]bool{},
 		lastSend: map[[2]int]int{}, retired: map[[2]int]map[int]bool{}, rawSends: map[string]int{},
-		withdraws: map[int]int{}, markerSkip: map[string]bool{},
+		withdraws: map[int]int{}, markerSkip: map[string]bool{}, admin: map[*peer.Connection]bool{},
 	}
 	for i, nd := range w.m.Nodes {
 		mon.nodeIdx[nd.Name] = i
@@ -321,7 +322,9 @@ func (mon *monitor) poll() {
 			c := pm.GetPeer(pid)
 			if c != st.conn {
 				// R3a
-				if st.conn != nil && !isClosed(st.conn) {
+				if st.conn != nil && !isClosed(st.conn) && mon.admin[st.conn] {
+					simrt.Probe("c32_deregistered_by_the_agent_itself_before_close")
+				} else if st.conn != nil && !isClosed(st.conn) {
 					simrt.Failf("registration-lost-while-connection-open", "the registered connection of a peer was deregistered or replaced although it has not been closed",
 						"%s: registration of %s moved from link %d to link %d while link %d is still open (dead=%v faulted=%v)",
 						nd.Name, m.Nodes[st.p].Name, linkID(st.link), linkID(linkOf(c)), linkID(st.link), st.link != nil && st.link.Dead(), mon.faulted[linkID(st.link)])
